@@ -205,7 +205,7 @@ def a64_immediate(draw):
         if draw(st.booleans()):
             return ["imm", v], hash_ + str(v)
         return ["imm", v], hash_ + ("-" if v < 0 else "") + "0x%x" % abs(v)
-    mant = draw(st.sampled_from(["1.5", "0.0", "2.0", "0.25", "31.0", "1.0"]))
+    mant = draw(st.sampled_from(["1.5", "0.0", "2.0", "0.25", "31.0", "1.0", "-1.5", "-0.25", "-2.0", "-31.0"]))
     if draw(st.booleans()):
         return ["fimm", mant, None], "#" + mant
     es, ex = draw(st.sampled_from(["+", "-"])), draw(st.sampled_from(["0", "1", "00", "01"]))
